@@ -297,6 +297,19 @@ def scenarios_c15(ctx, binpath, count):
             if track:
                 sc.append(("cde:%s:long_unicode:no-track:%s" % (res[:4], "/".join(map(str, p))[:50]), ["--cde", "--num-threads", "1", fp], None,
                            {"file": fp, "cde": True, "track": None}))
+        # every track title (it is printed in the refusal "more than one course track": track_summary) with multi-byte characters around
+        # typical truncation widths (40 / 60 / 80 bytes or characters), run WITHOUT --track
+        if track:
+            tpaths = [p for p in paths_in(doc) if len(p) == 6 and p[0] == "event" and p[1] == "parts" and p[3] == "tracks" and p[5] == "title"]
+            for L in (19, 20, 29, 30, 39, 40, 59, 60):
+                m = copy.deepcopy(doc)
+                for q in tpaths:
+                    cur = m
+                    for k in q[:-1]:
+                        cur = cur[k]
+                    cur[q[-1]] = "x" * (L % 2) + "\u00e4" * L + " Nachmittag \U0001F600"
+                fp = w("c_title_%s_%d.json" % (res[:4], L), json.dumps(m))
+                sc.append(("cde:%s:track-titles-multibyte-%d:no-track" % (res[:4], L), ["--cde", "--num-threads", "1", fp], None, {"file": fp, "cde": True, "track": None}))
         # numeric extremes (values at the edges of the 32 / 64 bit ranges) in the integer fields of the export, with and without the ignore
         # options; num_choices additionally together with registrations whose assigned course is not among their choices (the penalty of
         # an unchosen course is num_choices + 1)
